@@ -80,6 +80,7 @@ int main() {
             else if (op == "paramsMutate") { auto p = rdP(); std::string m, a, b; is >> m;
                 if (m=="append") { is >> a >> b; p->append(tok(a), tok(b)); } else if (m=="set") { is >> a >> b; p->set(tok(a), tok(b)); }
                 else if (m=="del") { is >> a; p->del(tok(a)); } else if (m=="remove") { is >> a; p->remove(tok(a)); }
+                else if (m=="del2") { is >> a >> b; p->del(tok(a), tok(b)); } else if (m=="remove2") { is >> a >> b; p->remove(tok(a), tok(b)); }
                 else if (m=="sort") p->sort(); else if (m=="clear") p->clear(); else if (m=="parse") { is >> a; p->parse(tok(a)); }
                 else { std::cout << "UNKNOWN MUT " << line << "\n"; } }
             else std::cout << "UNKNOWN OP " << line << "\n";
